@@ -67,6 +67,30 @@ OBLIGATIONS = [
     "SkVerif.C14.interpolate_rows_preserved_in_order",
     "SkVerif.C14.interpolate_rejects_bad_length",
     "SkVerif.C14.interpolate_array_cells_rejected_witness",
+    "SkVerif.C14.ffill_eq_spec",
+    "SkVerif.C14.bfill_eq_spec",
+    "SkVerif.C14.impute_ffill_bfill_eq_spec",
+    "SkVerif.C14.impute_constant_eq_spec",
+    "SkVerif.C14.impute_mean_eq_spec",
+    "SkVerif.C14.impute_median_eq_spec",
+    "SkVerif.C14.median_sort_is_sorted_perm",
+    "SkVerif.C14.impute_linear_eq_spec",
+    "SkVerif.C14.impute_nearest_eq_spec",
+    "SkVerif.C14.impute_keeps_observed_and_length",
+    "SkVerif.C14.impute_drift_eq_ffill_bfill_partial",
+    "SkVerif.C14.impute_drift_no_trend_witness",
+    "SkVerif.C14.impute_missing_values_partial",
+    "SkVerif.C14.impute_missing_values_zero_ignored_witness",
+    "SkVerif.C14.impute_rejects_bad_configuration",
+    "SkVerif.C14.rife_eq_spec",
+    "SkVerif.C14.rife_interval_slice",
+    "SkVerif.C14.row_transformers_eq_map",
+    "SkVerif.C14.row_transformer_cellwise",
+    "SkVerif.C14.acf_eq_spec",
+    "SkVerif.C14.acf_lag_zero_is_one",
+    "SkVerif.C14.cos_elementwise",
+    "SkVerif.C14.adaptor_columnwise",
+    "SkVerif.C14.minMax_closed_form",
 ]
 TRUSTED = []
 ASSUMPTIONS = []
